@@ -244,9 +244,12 @@ func (vm *VM) exec(pc bytecode, vars []Variable, cont Cont, args []Term, astack 
 		case opExit:
 			return cont(env)
 		case opCut:
-			return cut(cutParent, func(context.Context) *Promise {
-				return vm.exec(pc, vars, cont, args, astack, env, cutParent)
+			// The cut takes the place of cutParent on the stack. A later cut in the same clause cuts back to it.
+			var p *Promise
+			p = cut(cutParent, func(context.Context) *Promise {
+				return vm.exec(pc, vars, cont, args, astack, env, p)
 			})
+			return p
 		case opGetList:
 			l := operand.(Integer)
 			arg, astack = args[0], append(astack, args[1:])
